@@ -18,7 +18,8 @@ CondMenu == {
   <<Fn("attribute_not_exists", <<Path("h")>>), <<>>, <<>>>>,
   <<Cmp("=", Path("v"), Val(":one")), <<>>, One(":one", Num(1))>>,
   <<Cmp("<>", Path("v"), Val(":one")), <<>>, One(":one", Num(1))>>,
-  <<And(Cmp("<", Path("v"), Val(":two")), Fn("attribute_exists", <<PathA("#w")>>)), One("#w", "w"), One(":two", Num(2))>>,
+  <<And(Cmp("<", PathA("#v"), Val(":two")), Fn("attribute_exists", <<PathA("#w")>>)), [n \in {"#v", "#w"} |-> IF n = "#v" THEN "v" ELSE "w"], One(":two", Num(2))>>,
+  <<Or(Cmp("=", PathA("#w"), Val(":one")), Cmp("=", PathA("#v"), Val(":x"))), [n \in {"#v", "#w"} |-> IF n = "#v" THEN "v" ELSE "w"], [n \in {":one", ":x"} |-> IF n = ":one" THEN Num(1) ELSE S1(120)]>>,
   <<Not(Or(Cmp("=", Path("v"), Val(":one")), Cmp("=", Path("w"), Val(":x")))), <<>>, [n \in {":one", ":x"} |-> IF n = ":one" THEN Num(1) ELSE S1(120)]>>
 }
 
